@@ -120,9 +120,10 @@ Queries(PP_, x) ==
   << [x |-> x, d |-> RNeg(g)], [x |-> x, d |-> RScal(q(-4, 1), g)], [x |-> x, d |-> g],
      [x |-> RSub(x, RScal(q(1, 2), g)), d |-> Unit(Len(x), 1)] >>
 LSRules ==
-  { LSBT(tau, disc, a0, est, mx) :
-      tau \in {q(1, 2), q(1, 4)}, disc \in {q(1, 100), q(1, 2)}, a0 \in {QOne, q(2, 1), q(1, 2)},
-      est \in BOOLEAN, mx \in (IF Thorough THEN {0, 1, 2, 3, 30} ELSE {1, 2, 30}) }
+  { LSBT(td[1], td[2], a0, est, mx) :
+      td \in (IF Thorough THEN {q(1, 2), q(1, 4)} \X {q(1, 100), q(1, 2)}
+              ELSE {<<q(1, 2), q(1, 100)>>, <<q(1, 4), q(1, 2)>>}),
+      a0 \in {QOne, q(2, 1), q(1, 2)}, est \in BOOLEAN, mx \in (IF Thorough THEN {0, 1, 2, 3, 30} ELSE {1, 30}) }
   \cup {LSConst(q(3, 4)), LSIterNum(<<q(1, 1), q(1, 2), q(1, 3)>>)}
 LSCat(u_) ==
   { [Inst("ls", "history", c) EXCEPT !.ls = ls, !.N = 3,
